@@ -350,8 +350,9 @@ def _enc_json(m, ef, spec, r):
 
 def as_dict(c):
     """does `_combine_columns` of this materializer/output go through a {name: column} dict?
-    (pandas: only for output='pandas'; narwhals: `nw.from_dict` for everything but sparse)"""
-    return c["output"] == "pandas" or (c["mat"] == "narwhals" and c["output"] != "sparse")
+    (pandas materializer: never — since fix 6360990 "pandas output keeps columns that share a label" the frame is
+    assembled by position; narwhals: `nw.from_dict` for everything but sparse)"""
+    return c["mat"] == "narwhals" and c["output"] != "sparse"
 
 
 def observe(m, mm, output, nrows, collapse=False):
